@@ -1,7 +1,7 @@
 """C03 — pipeline property decided by the Lean oracle on generated crystals (see checks/pipe.py)."""
 from checks import pipe
 
-PROPS = [("Moyo.Props.C03", "Moyo/Props/C03.lean")]
+PROPS = [("Moyo.Props.C03", "Moyo/Props/C03.lean"), ("Moyo.Props.C03Stages", "Moyo/Props/C03Stages.lean")]
 
 
 def nontrivial(p, line):
@@ -9,9 +9,10 @@ def nontrivial(p, line):
 
 
 def run(tier, seed):
+    pipe.translate_s5()
     return pipe.run_property("C03", tier, seed, ['hall', 'super', 'lowsym'], PROPS,
                              {"rule": 'every Hall setting x {own, re-described} x {Spglib, Standard} alternating, plus supercells; non-trivial when the setting is not P1 and the cell is re-described; an Err on these premise-satisfying inputs counts as a violation'},
-                             nontrivial,
+                             nontrivial, stages=["s5"],
                              trusted=["premise validation of the generator (the generated crystal has exactly the generating group, symmetry gap >= 0.2 A) is a brute-force search in Rust, independent of moyo",
                                       "f64 rounding inside moyo is not modelled: the oracle judges the returned values in exact rational arithmetic",
                                       "the oracle's float code only orders candidate sites; every verdict is an exact test (Proofs/OracleSite.lean)"])
